@@ -148,7 +148,7 @@ def simpleCmd (w : World) (rec : Rec) (h : HelpTables) :
       else
         let tokens := words.drop i
         let base := tokens.headD ""
-        match w.matchCommand words cwd remote with
+        match w.matchCommand tokens cwd remote with
         | some m =>
           match m.decision with
           | .allow => ⟨.allow, base ++ " (" ++ m.pattern ++ ")"⟩
